@@ -361,11 +361,12 @@ coap_uri_into_optlist(const coap_uri_t *uri, const coap_address_t *dst,
     if (add_option) {
       uint8_t tbuf[4];
 
-      coap_insert_optlist(optlist_chain,
-                          coap_new_optlist(COAP_OPTION_URI_PORT,
-                                           coap_encode_var_safe(tbuf, 4,
-                                                                (uri->port & 0xffff)),
-                                           tbuf));
+      if (!coap_insert_optlist(optlist_chain,
+                               coap_new_optlist(COAP_OPTION_URI_PORT,
+                                                coap_encode_var_safe(tbuf, 4,
+                                                                     (uri->port & 0xffff)),
+                                                tbuf)))
+        return 0;
     }
   }
 
